@@ -9,7 +9,7 @@ raise a *framework* exception (documented to abort the run).
 
 import ast
 
-from ..absint import (EMPTY, NONE, NONEMPTY, NOTNONE, TOP, DefaultDomain, Frame, Interp, Result, State, exc, val)
+from ..absint import (EMPTY, FALSE, TRUE, NONE, NONEMPTY, NOTNONE, TOP, DefaultDomain, Frame, Interp, Result, State, exc, val)
 from ..astutil import FUNC_TYPES, attr_chain, dotted, norm
 from ..loader import AnalysisError, Undecided
 from .common import RUNTEST
@@ -105,6 +105,11 @@ class RunDomain(DefaultDomain):
     def unknown_call(self, call, st):
         return [val(TOP, st), exc(("framework", "call " + norm(call.func)[:40]), st)]
 
+    def refine(self, interp, test, st, fr, truth):
+        if norm(test) == "self.case._cleanups":
+            return st.set("cleanups.known", "nonempty" if truth else "empty")
+        return st
+
     def raised_value(self, stmt, value, st, fr):
         if isinstance(stmt.exc, ast.Name) and st.get(fr.local(stmt.exc.id)) == ("recorded",):
             return RERAISE
@@ -143,7 +148,11 @@ class RunDomain(DefaultDomain):
                 out.append(exc(("framework", "pop from empty list"), st))
             return out
         if d == "self.case._cleanups.pop":
-            return [val(("tuple", ("user", "cleanup"), TOP, TOP), st), exc(("framework", "IndexError: pop from empty list"), st)]
+            popped = val(("tuple", ("user", "cleanup"), TOP, TOP), st.set("cleanups.known", "?"))
+            if st.get("cleanups.known", "?") == "nonempty":
+                # the enclosing `while self.case._cleanups:` test has just established non-emptiness
+                return [popped]
+            return [popped, exc(("framework", "IndexError: pop from empty list"), st)]
         if d == "ExtendedToOriginalDecorator":
             return self._with_args(interp, call, st, fr, lambda s: [val(NOTNONE, s)])
         # calls on self: inline through the receiver's MRO
@@ -292,4 +301,259 @@ def fmt_log(state, limit=30):
     out = []
     for entry in state.log[:limit]:
         out.append(f"{entry[0]} (line {entry[1]})" if isinstance(entry, tuple) and len(entry) == 2 else str(entry))
+    return out
+
+
+# --------------------------------------------------------------------------------------
+# Exception kinds: which recorded exception selects the outcome (C01 propagation, C03 masking)
+# --------------------------------------------------------------------------------------
+
+KINDS = ("base", "bad", "soft")  # non-Exception BaseException / failure-or-error / skip-or-expected-failure
+
+
+class KindRunDomain(RunDomain):
+    """RunDomain in which user code raises one of three exception kinds and the
+    recorded-exception list remembers the first non-Exception, the first
+    failure/error and the last recorded one (with the stage that raised it)."""
+
+    def __init__(self, classes, receiver, kinds=KINDS):
+        super().__init__(classes, receiver, record_stages=False)
+        # "bad" also stands for "any ordinary Exception" when "soft" is not tracked
+        self.kinds = tuple(kinds)
+
+    def _user_call(self, v, call, st):
+        stage = v[1]
+        s = st.set("ev.cur_stage", stage).set("ev.user_ran", 1)
+        if s.get("env.force", None) == "F":
+            # user code may call expectThat: a flag seen unset earlier says nothing any more
+            s = s.drop_prefix("env.force")
+        out = [val(USERVALUE, s.note(("user:" + stage, call.lineno)))]
+        for k in self.kinds + ("multi",):
+            out.append(exc(("user", k, stage), s.note((f"user-raise[{k}]:" + stage, call.lineno))))
+        return out
+
+    def load_attr(self, chain, st, fr):
+        if chain == ["MultipleExceptions"]:
+            return ("global", "MultipleExceptions")
+        return super().load_attr(chain, st, fr)
+
+    def compare(self, op, left, right):
+        if isinstance(op, (ast.Is, ast.IsNot)) and right == ("global", "MultipleExceptions") and isinstance(left, tuple) and left and left[0] == "exctype":
+            x = left[1]
+            if isinstance(x, tuple) and x and x[0] == "user":
+                is_multi = x[1] == "multi"
+                return "T" if is_multi == isinstance(op, ast.Is) else "F"
+            return "TF"
+        if isinstance(op, (ast.Is, ast.IsNot)) and right == ("global", "MultipleExceptions") and left == TOP:
+            # a constituent of a MultipleExceptions: a nested MultipleExceptions records the same
+            # sequences as its flattening (the constituent loop already runs 0..n times over any kinds)
+            return "F" if isinstance(op, ast.Is) else "T"
+        return super().compare(op, left, right)
+
+    def _record(self, s, kind, stage, call):
+        if kind == "base":
+            s = s.set("exc.nbase", min(2, s.get("exc.nbase", 0) + 1))
+        if kind == "base" and not s.has("exc.base"):
+            s = s.set("exc.base", stage)
+        if kind == "bad" and not s.has("exc.bad"):
+            s = s.set("exc.bad", stage)
+        s = s.set("exc.last", (kind, stage))
+        if s.has("ev.appended"):
+            s = s.set("ev.appended", 1)
+        return val(NONE, s.set("self._exceptions", NONEMPTY).note(("record[" + kind + "]:" + stage, call.lineno)))
+
+    def raised_value(self, stmt, value, st, fr):
+        if isinstance(value, tuple) and value and value[0] == "recorded":
+            return ("reraise", value[1], value[2])
+        if isinstance(stmt.exc, ast.Name):
+            v = st.get(fr.local(stmt.exc.id))
+            if isinstance(v, tuple) and v and v[0] == "recorded":
+                return ("reraise", v[1], v[2])
+        if fr.name == "_raise_force_fail_error":
+            return ("user", "bad", "forced")
+        return ("framework", "raise " + norm(stmt.exc)[:40])
+
+    def subscript(self, base, idx, st, fr):
+        if isinstance(base, tuple) and base and base[0] == "excinfo":
+            if idx == ("const", 1):
+                return base[1]
+            if idx == ("const", 0):
+                return ("exctype", base[1])
+            return TOP
+        return None
+
+    # -- the force_failure flag (set by expectThat from any user stage) -----------------
+    def _read_force(self, st, lineno):
+        """The flag is read: its value is chosen once per abstract run and stays fixed
+        until user code runs again (which may set it)."""
+        if st.has("env.force"):
+            return [val(TRUE if st.get("env.force") == "T" else NONE, st)]
+        if not st.get("ev.user_ran", 0):
+            return [val(NONE, st.set("env.force", "F"))]
+        return [val(TRUE, st.set("env.force", "T").note(("force_failure read: set", lineno))),
+                val(NONE, st.set("env.force", "F").note(("force_failure read: unset", lineno)))]
+
+    def load_attr_multi(self, chain, st, fr):
+        if chain == ["self", "case", "force_failure"]:
+            return self._read_force(st, 0)
+        return None
+
+    def _with_args(self, interp, call, st, fr, k):
+        out = []
+        exprs = [a.value if isinstance(a, ast.Starred) else a for a in call.args] + [kw.value for kw in call.keywords]
+        for r in interp.eval_list(exprs, st, fr):
+            if r.kind == "exc":
+                out.append(r)
+            else:
+                self._argvals = r.value
+                out.extend(k(r.state))
+        return out
+
+    def _handler_call(self, v, call, st):
+        rec = [a for a in getattr(self, "_argvals", ()) if isinstance(a, tuple) and a and a[0] == "recorded"]
+        if rec:
+            st = st.set("ev.dispatched", (rec[0][1], rec[0][2]))
+        return super()._handler_call(v, call, st)
+
+    def _result_event(self, m, call, st):
+        out = super()._result_event(m, call, st)
+        if m == "addSuccess":
+            out = [Result(r.kind, r.value, r.state.set("ev.success", 1)) for r in out]
+        return out
+
+    def call(self, interp, call, st, fr):
+        d = dotted(call.func)
+        if d == "getattr" and len(call.args) >= 2 and dotted(call.args[0]) == "self.case" and isinstance(call.args[1], ast.Constant) and call.args[1].value == "force_failure":
+            return self._read_force(st, call.lineno)
+        if d == "sys.exc_info":
+            handling = st.get(fr.local("<handling>"), TOP)
+            if not (isinstance(handling, tuple) and handling and handling[0] == "user"):
+                st = st.note((f"caught non-user exception {handling!r}"[:90], call.lineno))
+            return [val(("excinfo", handling), st)]
+        if d == "self._exceptions.append":
+            out = []
+            for r in interp.eval_list(list(call.args), st, fr):
+                if r.kind == "exc":
+                    out.append(r)
+                    continue
+                x = r.value[0] if r.value else TOP
+                s = r.state
+                if isinstance(x, tuple) and x and x[0] == "user":
+                    todo = [(x[1], x[2])]
+                elif x == TOP:
+                    # a constituent of a MultipleExceptions raised by the current stage: any kind
+                    todo = [(k, s.get("ev.cur_stage", "?")) for k in self.kinds]
+                else:
+                    todo = [("any", s.get("ev.cur_stage", "?"))]
+                s_in = s
+                for kind, stage in todo:
+                    s = s_in
+                    out.append(self._record(s, kind, stage, call))
+            return out
+        if d == "self._exceptions.pop":
+            cur = st.get("self._exceptions", TOP)
+            last = st.get("exc.last", ("any", "?"))
+            v = ("recorded", last[0], last[1])
+            out = []
+            # does a non-Exception remain in the list once the last element is gone?
+            left = st.get("exc.nbase", 0) - (1 if last[0] == "base" else 0)
+            if cur in (NONEMPTY, TOP):
+                if left <= 0:
+                    out.append(val(v, st.set("self._exceptions", EMPTY)))
+                    out.append(val(v, st.set("self._exceptions", NONEMPTY)))
+                else:
+                    out.append(val(v, st.set("self._exceptions", NONEMPTY).set("exc.rest_base", st.get("exc.base", "?"))))
+            if cur in (EMPTY, TOP):
+                out.append(exc(("framework", "IndexError: pop from empty list"), st))
+            return out
+        if d == "isinstance" and call.args:
+            out = []
+            for r in interp.eval_list(list(call.args), st, fr):
+                if r.kind == "exc":
+                    out.append(r)
+                    continue
+                x = r.value[0]
+                cls = norm(call.args[1]).split(".")[-1] if len(call.args) > 1 else ""
+                if isinstance(x, tuple) and x and x[0] == "recorded" and x[1] == "base":
+                    # R-HANDLER-TABLE (C03): no entry of the handler table matches a non-Exception
+                    out.append(val(TRUE if cls == "BaseException" else FALSE, r.state))
+                elif isinstance(x, tuple) and x and x[0] == "recorded" and x[1] in ("bad", "soft", "nonbase") and cls in ("Exception", "BaseException"):
+                    out.append(val(TRUE, r.state))
+                else:
+                    out.append(val(("bool",), r.state))
+            return out
+        return super().call(interp, call, st, fr)
+
+    def for_step(self, interp, stmt, itervalue, st, fr, first):
+        if itervalue == ("handlers",):
+            tested = [c.args[0].id for c in ast.walk(stmt) if isinstance(c, ast.Call) and dotted(c.func) == "isinstance" and c.args and isinstance(c.args[0], ast.Name)]
+            dispatched = [st.get(fr.local(n), None) for n in tested]
+            dispatched = [v for v in dispatched if isinstance(v, tuple) and v and v[0] == "recorded"]
+            if dispatched and dispatched[0][1] in ("bad", "soft"):
+                # the table ends with Exception (checked by C03 R-HANDLER-TABLE): some entry matches
+                return True, False
+        if dotted(stmt.iter) == "self._exceptions" and st.has("exc.rest_base"):
+            # a non-Exception is still in the list: the walk cannot end before reaching it
+            if itervalue == EMPTY:
+                return False, False
+            return True, False
+        return None
+
+    def element(self, itervalue, st, node):
+        if isinstance(node, ast.For) and dotted(node.iter) == "self._exceptions":
+            if st.has("exc.rest_base"):
+                return [("recorded", "nonbase", "?"), ("recorded", "base", st.get("exc.rest_base"))]
+            return [("recorded", "nonbase", "?")]
+        return super().element(itervalue, st, node)
+
+    def iter_step_effect(self, interp, stmt, itervalue, st, fr):
+        if dotted(stmt.iter) == "self._exceptions" and isinstance(stmt.target, ast.Name):
+            v = st.get(fr.local(stmt.target.id), None)
+            if isinstance(v, tuple) and v[:2] == ("recorded", "base") and st.has("exc.rest_base"):
+                return st.drop_prefix("exc.rest_base")
+        return st
+
+
+def analyse_kinds(ctx, receiver_cls, kinds=KINDS):
+    classes = ctx.classes
+    owner, f = classes.resolve_method(receiver_cls, "_run_prepared_result")
+    dom = KindRunDomain(classes, receiver_cls, kinds)
+    interp = Interp(dom, max_depth=10 if ctx.tier == "quick" else 14, max_states=60000)
+    res = interp.analyze(f, {"result": NOTNONE}, initial_state(), receiver=receiver_cls, name="_run_prepared_result")
+    for fn in interp.functions:
+        ctx.analysed(fn)
+    ctx.stats["states"] += interp.steps
+    return res, interp
+
+
+def force_verdicts(results):
+    """Classify the exits of an analyse_kinds() run by what became of a force_failure flag
+    that user code (expectThat) may have set: -> [(label, construct_suffix, ok, result)].
+
+    A run in which the flag is set -- or was never examined after the last user stage, so
+    that it may be set -- must end unsuccessfully: the dispatched exception is a failure /
+    error / non-Exception, or a non-Exception propagates."""
+    seen = {}
+    for r in results:
+        s = r.state
+        framework = r.kind == "exc" and isinstance(r.value, tuple) and r.value and r.value[0] == "framework"
+        if framework or s.get("ev.phantom", 0):
+            continue
+        force = s.get("env.force", None) or ("unread" if s.get("ev.user_ran", 0) else "F")
+        if force == "F":
+            continue
+        disp = s.get("ev.dispatched", None)
+        if s.get("ev.success", 0):
+            outcome, stage = "success", "-"
+        elif disp is None:
+            outcome, stage = ("propagates", "-") if r.kind == "exc" else ("none", "-")
+        else:
+            outcome, stage = disp
+        seen.setdefault((force, outcome, stage), r)
+    out = []
+    for (force, outcome, stage), r in sorted(seen.items(), key=repr):
+        ok = outcome in ("bad", "base", "any", "propagates")
+        how = "set" if force == "T" else "never examined after the last user stage"
+        label = f"force_failure {how}: outcome {'from a ' + outcome + ' exception of ' + stage if stage != '-' else outcome}"
+        out.append((label, f"force_failure {force} -> {outcome} from {stage}", ok, r))
     return out
